@@ -65,6 +65,16 @@ func checkC03(c *Ctx) {
 	// Minter events get their nonces from the connector: its restart / numbering clauses (C20)
 	c.include("connector", "C20", rulesIn("C20.cursor", "C20.counted-iff-valid"))
 
+	// the observed-event cursor survives a restart for every chain (the genesis clauses of C15 about it)
+	c.includeKeys("genesis", "C15", rulesIn("C15.faithful-import", "C15.field-roundtrip", "C15.prefix-export", "C15.export-own-state"), func(rule, key string) bool {
+		for _, k := range []string{"LastObservedEventNonce", "LastEventNonceByValidatorKey", "Nonces", "every-chain"} {
+			if strings.Contains(key, k) {
+				return true
+			}
+		}
+		return false
+	})
+
 	// ---- C03.nonce-writer ---------------------------------------------------
 	r.Min("C03.nonce-writer", 2)
 	ws := c.Writers(live, "Set", "LastObservedEventNonceKey")
